@@ -178,6 +178,8 @@ def run_one(ctx, rng, clsname, name, kind, fn):
     for i, (b, a) in enumerate(zip(before_a, after_a)):
         if a != b:
             pname = list(inspect.signature(fn).parameters)[i + (1 if kind in ('method', 'class') else 0)]
+            if (clsname, name, pname) in RETURNED_UPDATED:
+                continue
             ctx.violation('%s.%s:mutates_argument:%s' % (clsname, name, pname), 'argument %r changed from %s to %s' % (
                 pname, repr(b)[:160], repr(a)[:160]), desc); return
     # repeat on the same (deep-copied, equal) arguments
@@ -322,6 +324,10 @@ def explore(ctx):
                 ctx.note('harness error on %s.%s: %r' % (modname, name, e))
         caller_lists(ctx, rng)
     hash_seed_determinism(ctx)
+
+
+# lists the library documents as returned updated (the property exempts exactly these)
+RETURNED_UPDATED = {('Polygon2D', 'intersect_polygon_segments', 'polygon_list')}
 
 
 def replay(ctx, data):
